@@ -251,6 +251,9 @@ type GunPlan struct {
 	// instant). A gun counts as closed (Closed, ClosedAt) only once its Close has returned; CloseEntered counts the
 	// calls at their entry.
 	CloseDelayUs []int `json:"close_delay_us,omitempty"`
+	// ShotCtx: a shot is a request that is aborted when the gun's context (GunDeps.Ctx) is done: its duration
+	// (ShotUs) is waited for with an eye on that context instead of being slept blindly. False = blind sleep.
+	ShotCtx bool `json:"shot_ctx,omitempty"`
 }
 
 // StepSpan is one plain delay a double spent inside a step that ignores contexts.
@@ -461,7 +464,16 @@ func (g *Gun) Shoot(ammo core.Ammo) {
 		dur = g.w.Plan.ShotUs[g.nShots%n]
 	}
 	g.nShots++
-	sleepUs(dur)
+	if g.w.Plan.ShotCtx && g.Deps.Ctx != nil && dur > 0 {
+		tm := time.NewTimer(time.Duration(dur) * time.Microsecond)
+		select {
+		case <-tm.C:
+		case <-g.Deps.Ctx.Done():
+			tm.Stop()
+		}
+	} else {
+		sleepUs(dur)
+	}
 	for i := 0; i < g.w.Plan.Reports; i++ {
 		s := netsample.Acquire(fmt.Sprintf("g%d", g.Idx))
 		s.SetProtoCode(200)
